@@ -3,6 +3,7 @@
 mod filt;
 mod gen;
 mod gen2;
+mod gen3;
 mod interp;
 mod other;
 mod prng;
